@@ -503,6 +503,31 @@ func checkFlagDefaults(p *core.Program, r *core.Report, inits map[string]*core.I
 			continue
 		}
 		okv := false
+		// a default read from a field of a package-level struct initialised with constants (a "defaults" record),
+		// after that record was initialised: the constant it holds
+		if ld, isLd := d.def.(*ssa.UnOp); isLd && ld.Op == token.MUL {
+			if fa, isFA := ld.X.(*ssa.FieldAddr); isFA {
+				if g, isG := fa.X.(*ssa.Global); isG && g.Pkg == p.Cmd {
+					if iv := inits[g.Name()]; iv != nil && iv.Struct != nil && iv.NStores <= 1 {
+						if cv, isC := iv.Struct[core.FieldName(fa)].(*ssa.Const); isC && iv.Store != nil && core.InstrDominates(iv.Store, ld) {
+							onlyInit := true
+							for _, ref := range core.Referrers(g) {
+								if fa2, ok := ref.(*ssa.FieldAddr); ok && core.FieldName(fa2) == core.FieldName(fa) {
+									for _, rr := range core.Referrers(fa2) {
+										if st, isSt := rr.(*ssa.Store); isSt && !core.InstrDominates(st, ld) {
+											onlyInit = false
+										}
+									}
+								}
+							}
+							if onlyInit {
+								d.def = cv
+							}
+						}
+					}
+				}
+			}
+		}
 		switch wv := w.(type) {
 		case string:
 			s, isS := core.ConstString(d.def)
